@@ -78,7 +78,7 @@ def sig_scenario(i, sig, option, phase, pty):
     return s, meta
 
 
-def size_scenario(i, sizes, mode, rnd):
+def size_scenario(i, sizes, mode, rnd, inkind="pty"):
     """sizes: the successive true sizes of the terminal; mode: idle (spaced), busy (all while the loop is held in Update),
     released (while an external command runs), command (WindowSize command after the last)"""
     w0, h0 = sizes[0]
@@ -109,9 +109,9 @@ def size_scenario(i, sizes, mode, rnd):
         script += [P.DO("send", msg=P.B("windowsize")), P.DO("sleep", us=30000), P.W("idle")]
     script += [P.DO("send", msg=P.U(7)), P.DO("sleep", us=30000), P.W("idle"), P.DO("quit"), P.W("returned")]
     text = "".join(chr(65 + (k % 26)) for k in range(150)) + "\n" + "\n".join("L%02d" % k for k in range(40))
-    s = P.scenario(i, script, opts={"fps": 120, "nosighandler": False}, inp={"kind": "pty", "w": w0, "h": h0}, update=upd, isolate=True,
+    s = P.scenario(i, script, opts={"fps": 120, "nosighandler": False}, inp={"kind": inkind, "w": w0, "h": h0}, update=upd, isolate=True,
                    watchdog_ms=4000, view={"text": text})
-    return s, {"kind": "size", "sizes": sizes, "mode": mode}
+    return s, {"kind": "size", "sizes": sizes, "mode": mode, "inkind": inkind}
 
 
 def gen(tier, rnd):
@@ -137,7 +137,8 @@ def gen(tier, rnd):
                 s = (rnd.randint(20, 120), rnd.randint(5, 40))
                 if s != sizes[-1]:
                     sizes.append(s)
-            add(size_scenario(0, sizes, mode, rnd))
+            # the terminal is the output; the input is the same terminal, nothing, or a pipe
+            add(size_scenario(0, sizes, mode, rnd, inkind=["pty", "ptyout", "ptyout+pipe", "pty"][len(scs) % 4]))
     return scs, metas
 
 
@@ -262,7 +263,7 @@ def replay(res, path):
         raise C.Fail("replay file has no scenario")
     C.build_harness()
     rnd = random.Random(1)
-    x = sig_scenario(0, m["sig"], m["option"], m["phase"], m["pty"]) if m["kind"] == "signal" else size_scenario(0, [tuple(s) for s in m["sizes"]], m["mode"], rnd)
+    x = sig_scenario(0, m["sig"], m["option"], m["phase"], m["pty"]) if m["kind"] == "signal" else size_scenario(0, [tuple(s) for s in m["sizes"]], m["mode"], rnd, inkind=m.get("inkind", "pty"))
     results, _ = P.run_scenarios("C18_replay", [x[0]])
     print("problems:", judge_one(x[1], results[0]))
     res.oblige("replayed", True)
